@@ -26,9 +26,10 @@ Definition smap := list (N * svc).
 Definition sget (id : N) (m : smap) : option svc := alookup N.eqb id m.
 Definition sset (id : N) (r : svc) (m : smap) : smap := aset N.eqb id r m.
 
-(** getServiceByID: cache first, ledger on a miss *)
-Definition view (cache ledger : smap) (id : N) : option svc :=
-  match sget id cache with
+(** getServiceByID: cache first, ledger on a miss.  [ck] is the key under which the cache holds the record of an
+    id (the exact "chain:service" string in the code as it is: the identity); the stored records are keyed by the id *)
+Definition view (ck : N -> N) (cache ledger : smap) (id : N) : option svc :=
+  match sget (ck id) cache with
   | Some r => Some r
   | None => sget id ledger
   end.
@@ -67,5 +68,12 @@ Definition gate_sound (ledger : smap) (src dst : N) (o : outcome) : bool :=
 
 (** cache update at the end of a transaction: the Event_SERVICE events it posted, in order.
     [failed_too]: the events of a transaction that failed (and was reverted) are applied as well. *)
-Definition apply_events (evs : list (N * svc)) (cache : smap) : smap :=
-  fold_left (fun c e => sset (fst e) (snd e) c) evs cache.
+Definition apply_events (ck : N -> N) (evs : list (N * svc)) (cache : smap) : smap :=
+  fold_left (fun c e => sset (ck (fst e)) (snd e) c) evs cache.
+
+(** distinct ids have distinct cache keys *)
+Definition key_inj (ck : N -> N) : Prop := forall i j, ck i = ck j -> i = j.
+(** the stored records under their cache keys (a cache rebuilt from the ledger) *)
+Definition rekey (ck : N -> N) (m : smap) : smap := map (fun e => (ck (fst e), snd e)) m.
+(** ids that differ only in the case of their letters (in the histories: ids 10c+9 and 10c+8) under one key *)
+Definition fold_key (i : N) : N := if (i mod 10 =? 9)%N then (i - 1)%N else i.
